@@ -51,7 +51,7 @@ type c04Case struct {
 func init() {
 	engine.Register(&engine.Check{
 		ID: "C04", Level: "model_checking",
-		Rule:   "states = decision points of a reference WKB/EWKB reader model (byte order, type word, SRID, counts per level, coordinate blocks, truncation, trailing bytes); DFS over all field-choice sequences with <=3 (quick) / <=4 (thorough) non-default choices, <=14 fields, for WKB, WKB-NaN and EWKB under limit configurations {-1,2}^3 (quick) / {-1,0,2}^3 (thorough); every generated string is decoded by Unmarshal, hex Decode and Scan and compared with the model verdict OK(geometry)/TooLarge{level,n,limit}/Error; forged counts are tried in ascending magnitude with the heap-allocation delta measured around each decode; plus a role-blind sweep (every prefix, every byte x 5 values, every 4-byte word x count menu) of every corpus encoding under enabled limits, and a nesting-depth family in a sacrificial subprocess Also: an SRID word on every kind at every nesting level, generation starting from a collection / multipolygon / multilinestring as outermost kind, and intact encodings with one coordinate array of 2^k+1 positions (k=11..16) decoded, re-encoded and decoded again.",
+		Rule:   "states = decision points of a reference WKB/EWKB reader model (byte order, type word, SRID, counts per level, coordinate blocks, truncation, trailing bytes); DFS over all field-choice sequences with <=3 (quick) / <=4 (thorough) non-default choices, <=14 fields, for WKB, WKB-NaN and EWKB under limit configurations {-1,0,2}^3 (quick) / {-1,0,1,2}^3 (thorough); every generated string is decoded by Unmarshal, hex Decode and Scan and compared with the model verdict OK(geometry)/TooLarge{level,n,limit}/Error; forged counts are tried in ascending magnitude with the heap-allocation delta measured around each decode; plus a role-blind sweep (every prefix, every byte x 5 values, every 4-byte word x count menu) of every corpus encoding under enabled limits, and a nesting-depth family in a sacrificial subprocess Also: an SRID word on every kind at every nesting level, generation starting from a collection / multipolygon / multilinestring as outermost kind, and intact encodings with one coordinate array of 2^k+1 positions (k=11..16) decoded, re-encoded and decoded again.",
 		Run:    c04Run,
 		Replay: func(c *engine.Ctx, kind string, raw json.RawMessage) { c04Exec(c, decodeCase[c04Case](raw)) },
 		Assumptions: []string{
@@ -796,10 +796,10 @@ func c04SweepOne(c *engine.Ctx, cs c04Case, b []byte) {
 
 func c04Run(c *engine.Ctx) {
 	formats := []c04Case{{}, {NaN: true}, {Ext: true}}
-	limVals := []int{-1, 2}
+	limVals := []int{-1, 0, 2}
 	bound := 3
 	if c.Thorough() {
-		limVals = []int{-1, 0, 2}
+		limVals = []int{-1, 0, 1, 2}
 		bound = 4
 	}
 	c.Note("deviation_bound", bound)
@@ -873,9 +873,9 @@ func c04Run(c *engine.Ctx) {
 	c04ProductFamily(c)
 	// (2) role-blind sweep over the corpus encodings under enabled limits
 	corpus := codecCorpus(false)
-	sweepConfigs := [][4]int{{0, 16, 16, 16}, {0, 2, 2, 2}}
+	sweepConfigs := [][4]int{{0, 16, 16, 16}, {0, 2, 2, 2}, {0, 0, 0, 0}}
 	if c.Thorough() {
-		sweepConfigs = append(sweepConfigs, [4]int{0, 0, 0, 0}, [4]int{0, 3, 1, 1})
+		sweepConfigs = append(sweepConfigs, [4]int{0, 3, 1, 1}, [4]int{0, 1, 0, 2})
 	}
 	// Word replacement in ascending magnitude: larger forged words are only tried when no
 	// violation was seen with smaller ones (a decoder that allocates before checking is then
